@@ -83,7 +83,9 @@ def run(ck):
             if g_:
                 gw.append((f2, e, g_, chain))
         for d_ in f2.events("decl"):
-            if d_.get("static") and "const" not in (d_.get("type") or ""):
+            # (a thread_local local is per worker: not shared state; what it may carry from one request to the next is the business of
+            # the no-stale-static rules of the parsers and writers)
+            if d_.get("static") and not d_.get("tls") and "const" not in (d_.get("type") or ""):
                 statics.append((f2, d_))
     ck.ob("C09-R5", "serving-path/no-global-writes", not gw, gw[0][1].loc if gw else sroots[0].loc, gw[0][0] if gw else sroots[0],
           "%d functions reachable, none writes a global" % len(sreach) if not gw else
